@@ -57,7 +57,7 @@ impl UserId {
             Self::parse(id)
         } else {
             localpart_is_backwards_compatible(id_str)?;
-            Ok(Self::from_borrowed(&format!("@{id_str}:{server_name}")).to_owned())
+            Self::parse(format!("@{id_str}:{server_name}"))
         }
     }
 
@@ -74,7 +74,7 @@ impl UserId {
             Self::parse_rc(id)
         } else {
             localpart_is_backwards_compatible(id_str)?;
-            Ok(Self::from_rc(format!("@{id_str}:{server_name}").into()))
+            Self::parse_rc(format!("@{id_str}:{server_name}"))
         }
     }
 
@@ -91,7 +91,7 @@ impl UserId {
             Self::parse_arc(id)
         } else {
             localpart_is_backwards_compatible(id_str)?;
-            Ok(Self::from_arc(format!("@{id_str}:{server_name}").into()))
+            Self::parse_arc(format!("@{id_str}:{server_name}"))
         }
     }
 
